@@ -222,6 +222,86 @@ def h4(ctx: Ctx):
                where(fi, node), sample="derived from the whole `host` argument")
 
 
+def h5(ctx: Ctx):
+    """A host that contains ':' (IPv6) or ends in a digit (IPv4) is handed to the IP parser before it is treated as a
+    registered name: otherwise an IPv6 literal is lower-cased / validated as a name (rejected, or stored without brackets
+    and compression)."""
+    model = ctx.model
+    rule = "H5"
+    ctx.rule(rule, floor=1, what="hosts that look like IP literals reach the IP parser")
+    fi = model.func(ENC)
+    tr = lambda kind, t: kind == "call" and t[1][0] in ("ext", "global") and t[1][-1] == "ip_address"
+    try:
+        r = analyze(model, fi, trace=tr, trace_key="ipprobe", merge=False)
+    except AnalysisError:
+        r = analyze(model, fi, trace=tr, trace_key="ipprobe-merged")
+    hostp = ("param", fi.params[0])
+    colon = ("cmp", "In", ("const", ":"), hostp)
+    digit = ("call", ("attr", ("sub", hostp, ("const", -1)), "isdigit"), (), ())
+    exits = [(s, "return", n) for s, _v, n in r.returns] + [(s, "raise", n) for s, _e, n in r.raises]
+    bad = {}
+    n = 0
+    for s, how, node in exits:
+        looks_ip = truth(colon, s.facts) is True or truth(digit, s.facts) is True
+        if not looks_ip:
+            continue
+        n += 1
+        import ast as _ast
+        tried = {t[2] for t in s.trace if t[0] == "handled"}
+        # the probe may sit in a helper analysed in place: any `try` of the module whose handler this path went through
+        in_try = any(isinstance(n_, _ast.Try) and n_.lineno in tried and
+                     any(isinstance(c, _ast.Call) and getattr(c.func, "id", getattr(c.func, "attr", "")) == "ip_address"
+                         for b in n_.body for c in _ast.walk(b))
+                     for f_ in model.all_funcs(helpers=True) if f_.module == fi.module and f_.backend == fi.backend for n_ in _ast.walk(f_.node))
+        probed = any(t[0] == "call" for t in s.trace) or in_try or \
+            any(t[0] == "call" and t[1][0] in ("ext", "global") and t[1][-1] == "ip_address" for k in s.facts for t in walk(k))
+        if not probed:
+            bad[id(node)] = node
+    ctx.instance(rule)
+    ctx.ob(rule, ENC, f"{n} exit path(s) for hosts with ':' or a trailing digit", n > 0 and not bad,
+           "a host containing ':' or ending in a digit leaves the encoder without having been given to ip_address()" if n else
+           "no exit path knows that the host contains ':' / ends in a digit: the IP probe condition was not recognised",
+           where(fi, next(iter(bad.values())) if bad else fi.node), sample="ip_address(host) attempted first")
+
+
+def h6(ctx: Ctx):
+    """What the encoder returns for an IP literal: `[` compressed `]` for version 6 (with `%zone` inside the brackets), the
+    bare compressed text for version 4. Decided on the returned template of every path that knows the version."""
+    model = ctx.model
+    rule = "H6"
+    ctx.rule(rule, floor=1, what="IPv6 literals leave the encoder bracketed, the zone id after a '%' inside the brackets")
+    fi = model.func(ENC)
+    try:
+        r = analyze(model, fi, merge=False)
+    except AnalysisError:
+        r = analyze(model, fi)
+    n6 = 0
+    bad = []
+    for s, v, node in r.returns:
+        ver = [fv for k, fv in s.facts.items() if k[0] == "cmp" and k[1] == "Eq" and ("const", 6) in (k[2], k[3]) and
+               "version" in show(k)]
+        if not ver:
+            continue
+        parts = flatten(v)
+        lits = [p_[1] for p_ in parts if p_[0] == "lit"]
+        vals = [p_ for p_ in parts if p_[0] != "lit"]
+        if ver[0] is True:
+            n6 += 1
+            shape = [p_[1] if p_[0] == "lit" else None for p_ in parts]
+            if shape not in (["[", None, "]"], ["[", None, "%", None, "]"]):
+                bad.append((node, f"IPv6 result {show(v)[:60]} is not `[<address>]` / `[<address>%<zone>]`"))
+        else:
+            if any("[" in l or "]" in l for l in lits):
+                bad.append((node, f"IPv4 result {show(v)[:60]} carries brackets"))
+            elif len(vals) == 2 and lits != ["%"]:
+                bad.append((node, f"IPv4 result {show(v)[:60]}: address and zone are not joined by '%'"))
+    if not n6:
+        raise AnalysisError(f"{ENC}: no return path knows `ip.version == 6`: the IPv6 branch was not recognised (unknown idiom)")
+    ctx.instance(rule)
+    ctx.ob(rule, ENC, f"{n6} IPv6 return path(s)", not bad, bad[0][1] if bad else "",
+           where(fi, bad[0][0] if bad else fi.node), sample="[<compressed>] / [<compressed>%<zone>]")
+
+
 def h3(ctx: Ctx):
     model = ctx.model
     rule = "H3"
@@ -423,6 +503,24 @@ def ord5(ctx: Ctx):
                     continue
                 if isinstance(chars, str):
                     screened |= set(chars)
+    # what is legitimately present in an authority ('@' before the host, ':' before the port) is taken out before the
+    # normalised form is inspected - otherwise every non-ASCII authority with userinfo or a port would be rejected
+    removed = set()
+    for e in r.by_kind("call"):
+        if e.func[0] == "attr" and e.func[2] == "replace" and len(e.args) == 2 and e.args[1] == ("const", ""):
+            a0 = e.args[0]
+            if a0[0] == "const" and isinstance(a0[1], str):
+                removed |= set(a0[1]) if len(a0[1]) == 1 else {a0[1]}
+            elif a0[0] == "elem":
+                try:
+                    removed |= set(fold.fold(a0[1]))
+                except CannotFold:
+                    pass
+    ctx.instance(rule)
+    ctx.ob(rule, fi.qual, "delimiters set aside before normalising", {"@", ":"} <= removed,
+           f"the screen removes {''.join(sorted(removed))!r} before NFKC-normalising; '@' and ':' occur in every authority with userinfo / "
+           "a port and are in the screened set, so leaving them in rejects valid non-ASCII authorities", where(fi, fi.node),
+           sample="".join(sorted(removed)))
     raises = all(v[0] == "call" and v[1] == ("builtin", "ValueError") for _s, v, _n in r.raises) and bool(r.raises)
     nfkc = any(e.func[-1] == "normalize" and e.args and e.args[0] == ("const", "NFKC") for e in r.by_kind("call"))
     ctx.ob(rule, fi.qual, "screened characters", screened >= set(NFKC_SCREEN) and raises and nfkc,
